@@ -163,7 +163,7 @@ def encode_inventory(ctx, rep):
     rep.check("R3.5", "coverage:writers", len([n for n in inv.reach if n.endswith("binrw::binwrite::BinWrite>::write_options")]) >= 130,
               "expected at least 130 BinWrite impls on the encode path (found %d)" % len([n for n in inv.reach if n.endswith("binrw::binwrite::BinWrite>::write_options")]), None,
               sample={"functions_reachable": len(inv.reach), "sites": len(sites)})
-    rep.floor("R3.5", 20)
+    rep.floor("R3.5", 12)
 
 
 def const_array_len(ctx, o):
